@@ -167,6 +167,15 @@ def run_shard(spec, acc):
                     imps = sorted(set(imps) | set(rnd.sample(extra, rnd.randint(1, 3))))
                     acc.count("forced_nested_list_with_later_sibling")
                     break
+        if rnd.random() < 0.06:
+            # a layer may be called anything, the empty string included
+            old_name = rnd.choice(names)
+            layers = {("" if k == old_name else k): v for k, v in layers.items()}
+            kinds = {("" if k == old_name else k): v for k, v in kinds.items()}
+            names = ["" if n == old_name else n for n in names]
+            subject = "" if subject == old_name else subject
+            objects = ["" if o == old_name else o for o in objects]
+            acc.count("layers_named_with_the_empty_string")
         if rnd.random() < 0.1:
             # a regex-defined layer that the rule does not mention and that matches no module of this architecture
             layers["LZ"] = ["r.no_such_module_zz"]
